@@ -44,7 +44,7 @@ Definition allowed_ok (al : allowed) (puzzle : str) : bool :=
 Definition deserialize_url_cu (cu : custom) (c : comb) (url : str) (al : allowed)
            (allow_failure return_size : bool) : res (option pv) :=
   match url_match url with
-  | None => if allow_failure then Ok None else Err AssertionError
+  | None => if allow_failure then Ok None else Err ValueError     (* not a puzzle URL *)
   | Some (puzzle, wd, hd, body) =>
       let* w := py_int wd 10 in
       let* h := py_int hd 10 in
